@@ -132,8 +132,8 @@ static std::vector<CheckDef> g_checks = {
             "consistency rules: SSE4.2=>SSE4.1, AVX=>SSE4.2, AVX2=>AVX, AVX512F=>AVX2, sub-features=>F, VAES/VPCLMULQDQ=>AVX, SHA/GFNI=>SSE4.2, "
             "XCR0 bits only for reported features, ZMM state bits together" } },
         { "C13", "fault_enumeration", { { "fipsgate", 1 } }, 48000, 6000000, 50, 900, false, true,
-          "cases: every run starts from one injected self-test state (6 fault kinds, rotated by run index) and its first call rotates over all "
-          "isal_* entry points, so every (entry point x initial fault kind) pair is enumerated once per 6*#entries runs; later calls, XTS "
+          "cases: every run starts from one injected self-test state (8 fault kinds, rotated by run index) and its first call rotates over all "
+          "isal_* entry points, so every (entry point x initial fault kind) pair is enumerated once per 8*#entries runs; later calls, XTS "
           "same-key variants, arguments and further injections are seeded; distinct_nontrivial: distinct (entry point, self-test state "
           "before the call, pending fault kind, xts-same-keys) tuples judged",
           { "self-test verdict injected by link-time wrapping of _aes_self_tests/_sha_self_tests or by corrupting a kernel's KAT output",
